@@ -90,6 +90,28 @@ class Ev:
             return
         if isinstance(st, ast.Pass):
             return
+        if isinstance(st, ast.FunctionDef) and not st.decorator_list and not st.args.vararg and not st.args.kwarg \
+                and not st.args.kwonlyargs:
+            # local helper function: a closure over the current environment (read at call time)
+            params = [a.arg for a in st.args.posonlyargs + st.args.args]
+            defaults = [self.ev(d) for d in st.args.defaults]
+            outer, body = self, st.body
+
+            def local_fn(*vals, **kw):
+                sub = Ev(dict(outer.env), hook=outer.hook, attr_hook=outer.attr_hook, asserts=outer.asserts,
+                         store_hook=outer.store_hook)
+                for i, p in enumerate(params):
+                    if i < len(vals):
+                        sub.env[p] = vals[i]
+                    elif p in kw:
+                        sub.env[p] = kw[p]
+                    elif i - (len(params) - len(defaults)) >= 0:
+                        sub.env[p] = defaults[i - (len(params) - len(defaults))]
+                    else:
+                        raise Undecided("missing argument of local function " + st.name)
+                return sub.run(body)
+            self.env[st.name] = local_fn
+            return
         if isinstance(st, ast.Assert):
             if self.asserts and not self.ev(st.test):
                 raise Raised("AssertionError")
